@@ -1,1 +1,579 @@
-fn main(){}
+//! mon-plugin: C15 — the bot plugin (libchess_bot.so loaded through the stable ABI) applies a
+//! move iff it is legal, reports the reference successor, raises the threefold flag exactly on the
+//! third occurrence since the board was last set, and proposes legal moves.
+//!
+//! usage: mon-plugin C15 --plugin <libchess_bot.so> [--tier ..] [--seed N] [--shard I] [--nshards N]
+//!                       [--out file] [--journal file] [--small] [--replay file]
+
+use chess_api::{ChessApiRef, ChessEngine};
+use chess_bitboard::{Color, Piece, Pos, PromotionPiece};
+use chess_engine::Timeout;
+use chess_movegen::{Board, ChessMove};
+use refmodel::json::{obj, J};
+use refmodel::report::{self, Collector};
+use refmodel::rng::{fnv, mix3, Rng};
+use refmodel::workload::{self, Theme};
+use refmodel::*;
+use std::cell::Cell;
+use std::collections::HashMap;
+
+fn pos(s: u8) -> Pos {
+    Pos::from_u8(s).unwrap()
+}
+fn mv(m: Mv) -> ChessMove {
+    ChessMove {
+        source: pos(m.from),
+        dest: pos(m.to),
+        piece: m.promo.and_then(|k| match k {
+            Kind::N => Some(PromotionPiece::Knight),
+            Kind::B => Some(PromotionPiece::Bishop),
+            Kind::R => Some(PromotionPiece::Rook),
+            Kind::Q => Some(PromotionPiece::Queen),
+            _ => None,
+        }),
+    }
+}
+fn mv_back(m: ChessMove) -> Mv {
+    Mv {
+        from: m.source.to_u8(),
+        to: m.dest.to_u8(),
+        promo: m.piece.map(|p| match p {
+            PromotionPiece::Knight => Kind::N,
+            PromotionPiece::Bishop => Kind::B,
+            PromotionPiece::Rook => Kind::R,
+            PromotionPiece::Queen => Kind::Q,
+        }),
+    }
+}
+
+fn observe(b: &Board) -> Result<Position, String> {
+    let mut p = Position::empty();
+    for s in 0..64u8 {
+        if let Some((c, k)) = b.raw().get(pos(s)) {
+            let c = if c == Color::White { Col::W } else { Col::B };
+            let k = match k {
+                Piece::Pawn => Kind::P,
+                Piece::Knight => Kind::N,
+                Piece::Bishop => Kind::B,
+                Piece::Rook => Kind::R,
+                Piece::Queen => Kind::Q,
+                Piece::King => Kind::K,
+            };
+            p.board[s as usize] = Some((c, k));
+        }
+    }
+    p.turn = if b.turn() == Color::White { Col::W } else { Col::B };
+    p.half = b.half_move_clock() as u32;
+    p.full = b.full_move_clock() as u32;
+    let dbg = format!("{b:?}");
+    for line in dbg.lines() {
+        if let Some(r) = line.strip_prefix("castle rights: ") {
+            for ch in r.chars() {
+                match ch {
+                    'K' => p.castle[0] = true,
+                    'Q' => p.castle[1] = true,
+                    'k' => p.castle[2] = true,
+                    'q' => p.castle[3] = true,
+                    '-' => {}
+                    _ => return Err(format!("rights text {r:?}")),
+                }
+            }
+        } else if let Some(e) = line.strip_prefix("en-passant: ") {
+            p.ep = "ABCDEFGH".find(e.trim()).map(|i| i as u8);
+        }
+    }
+    Ok(p)
+}
+
+struct Counting {
+    polls: Cell<u64>,
+    expire: u64,
+}
+impl Timeout for Counting {
+    fn is_complete(&self) -> bool {
+        let k = self.polls.get();
+        self.polls.set(k + 1);
+        k >= self.expire
+    }
+}
+
+#[derive(Clone, Debug)]
+enum Call {
+    SetBoard(String),
+    Move(Mv),
+    Evaluate(u64),
+    Board,
+}
+
+impl Call {
+    fn text(&self) -> String {
+        match self {
+            Call::SetBoard(f) => format!("set_board {f}"),
+            Call::Move(m) => format!("make_move {}", m.uci()),
+            Call::Evaluate(k) => format!("evaluate {k}"),
+            Call::Board => "board".into(),
+        }
+    }
+    fn parse(s: &str) -> Option<Call> {
+        let (h, t) = s.split_once(' ').unwrap_or((s, ""));
+        Some(match h {
+            "set_board" => Call::SetBoard(t.to_string()),
+            "make_move" => Call::Move(Mv::parse_uci(t)?),
+            "evaluate" => Call::Evaluate(t.parse().ok()?),
+            "board" => Call::Board,
+            _ => return None,
+        })
+    }
+}
+
+/// Reference model of one plugin engine instance.
+struct ModelEngine {
+    pos: Position,
+    occ: HashMap<Identity, u32>,
+}
+
+impl ModelEngine {
+    fn new() -> Self {
+        let pos = Position::standard();
+        let mut occ = HashMap::new();
+        occ.insert(pos.identity(), 1);
+        ModelEngine { pos, occ }
+    }
+    fn set_board(&mut self, p: Position) {
+        self.occ.clear();
+        self.occ.insert(p.identity(), 1);
+        self.pos = p;
+    }
+}
+
+struct Failure {
+    kind: &'static str,
+    sig: String,
+    detail: String,
+    at: usize,
+}
+
+/// Run a call history on engine `e` (fresh or reused) against the model; first divergence wins.
+fn execute(e: &mut ChessEngine, m: &mut ModelEngine, calls: &[Call], stats: &mut dyn FnMut(&str)) -> Option<Failure> {
+    for (i, call) in calls.iter().enumerate() {
+        match call {
+            Call::SetBoard(fen) => {
+                stats("call:set_board");
+                let Ok(p) = Position::from_fen(fen) else { continue };
+                let Ok(b) = chess_movegen::fen::parse_fen(fen.as_bytes()) else { continue };
+                e.set_board(b);
+                m.set_board(p);
+            }
+            Call::Board => {
+                stats("call:board");
+            }
+            Call::Move(x) => {
+                let legal = m.pos.is_legal(*x);
+                stats(if legal { "call:make_move-legal" } else { "call:make_move-illegal" });
+                let r = e.make_move(mv(*x));
+                if r.is_valid != legal {
+                    return Some(Failure {
+                        kind: "legality-gate",
+                        sig: if legal { "legal-move-rejected".into() } else { "illegal-move-accepted".into() },
+                        detail: format!("make_move({}) in {} reported valid = {}, the move is {}", x.uci(), m.pos.to_fen(), r.is_valid, if legal { "legal" } else { "illegal" }),
+                        at: i,
+                    });
+                }
+                let expected_flag = if legal {
+                    let next = m.pos.apply(*x);
+                    let n = m.occ.entry(next.identity()).or_insert(0);
+                    *n += 1;
+                    let n = *n;
+                    m.pos = next;
+                    stats(match n {
+                        1 => "occurrence:1st",
+                        2 => "occurrence:2nd",
+                        3 => "occurrence:3rd",
+                        4 => "occurrence:4th",
+                        _ => "occurrence:5th+",
+                    });
+                    n == 3
+                } else {
+                    false
+                };
+                if r.is_three_fold_draw != expected_flag {
+                    let n = m.occ.get(&m.pos.identity()).copied().unwrap_or(0);
+                    return Some(Failure {
+                        kind: "threefold-flag",
+                        sig: if expected_flag { "third-occurrence-missed".into() } else { format!("flag-raised-on-occurrence-{}", n.min(5)) },
+                        detail: format!(
+                            "make_move({}) -> {}: is_three_fold_draw = {}, but this is occurrence #{n} of the position since the board was last set",
+                            x.uci(),
+                            m.pos.to_fen(),
+                            r.is_three_fold_draw
+                        ),
+                        at: i,
+                    });
+                }
+            }
+            Call::Evaluate(k) => {
+                stats("call:evaluate");
+                let t = Counting { polls: Cell::new(0), expire: *k };
+                let (om, _score) = e.evaluate(&t);
+                if let Some(x) = om {
+                    let x = mv_back(x);
+                    if !m.pos.is_legal(x) {
+                        return Some(Failure {
+                            kind: "proposed-move-illegal",
+                            sig: "evaluate".into(),
+                            detail: format!("evaluate({k}) in {} proposed {} which is not legal", m.pos.to_fen(), x.uci()),
+                            at: i,
+                        });
+                    }
+                    stats("evaluate:proposed-a-move");
+                }
+            }
+        }
+        // after every call: the reported board equals the reference position
+        let b = e.board();
+        match observe(&b) {
+            Ok(p) => {
+                if p != m.pos {
+                    return Some(Failure {
+                        kind: "reported-board-differs",
+                        sig: match call {
+                            Call::Move(x) if !m.pos.is_legal(*x) => "after-call".into(),
+                            Call::Move(_) => "after-move".into(),
+                            Call::SetBoard(_) => "after-set_board".into(),
+                            Call::Evaluate(_) => "after-evaluate".into(),
+                            Call::Board => "after-board".into(),
+                        },
+                        detail: format!("after {} the plugin reports {}, the reference position is {}", call.text(), p.to_fen(), m.pos.to_fen()),
+                        at: i,
+                    });
+                }
+                if b.to_string() != m.pos.to_fen() && m.pos.half <= 9999 && m.pos.full <= 9999 {
+                    return Some(Failure {
+                        kind: "reported-board-differs",
+                        sig: "display".into(),
+                        detail: format!("after {} the plugin's board prints {:?}, expected {:?}", call.text(), b.to_string(), m.pos.to_fen()),
+                        at: i,
+                    });
+                }
+            }
+            Err(er) => return Some(Failure { kind: "reported-board-differs", sig: "unobservable".into(), detail: er, at: i }),
+        }
+    }
+    None
+}
+
+fn gen_history(rng: &mut Rng, corpus: &[Position], long: bool) -> Vec<Call> {
+    let mut calls = Vec::new();
+    let mut model = ModelEngine::new();
+    let n = if long { rng.range(300, 1200) } else { rng.range(10, 120) } as usize;
+    let mut prev_own: [Option<Mv>; 2] = [None, None];
+    let mut shuffle_bias: u64 = *rng.pick(&[0u64, 50, 400, 400, 2000]);
+    let start_with_set = rng.chance(2, 3);
+    for i in 0..n {
+        let r = rng.below(100);
+        if (i == 0 && start_with_set) || r < 2 {
+            // set_board
+            let p = match rng.below(4) {
+                0 => Position::standard(),
+                1 => rng.pick(corpus).clone(),
+                2 => {
+                    let t = *rng.pick(&[Theme::Sparse, Theme::Mid, Theme::Castle, Theme::PawnRace, Theme::MatingNet]);
+                    workload::random_placement(rng, t, false).unwrap_or_else(Position::standard)
+                }
+                _ => model.pos.clone(),
+            };
+            if p.chess_root_ok().is_err() || p.half > 9000 || p.full > 9000 {
+                continue;
+            }
+            calls.push(Call::SetBoard(p.to_fen()));
+            model.set_board(p);
+            prev_own = [None, None];
+            shuffle_bias = *rng.pick(&[0u64, 50, 400, 400, 2000]);
+            continue;
+        }
+        if r < 8 {
+            // illegal / near-legal move
+            let legal = model.pos.legal_moves();
+            let cand: Mv = match rng.below(3) {
+                0 => {
+                    let ps = model.pos.pseudo_moves();
+                    let ill: Vec<Mv> = ps.into_iter().filter(|m| !legal.contains(m)).collect();
+                    if ill.is_empty() {
+                        Mv { from: rng.below(64) as u8, to: rng.below(64) as u8, promo: None }
+                    } else {
+                        *rng.pick(&ill)
+                    }
+                }
+                1 if !legal.is_empty() => {
+                    let mut m = *rng.pick(&legal);
+                    m.promo = if m.promo.is_some() { None } else { Some(Kind::Q) };
+                    m
+                }
+                _ => Mv { from: rng.below(64) as u8, to: rng.below(64) as u8, promo: *rng.pick(&[None, Some(Kind::N)]) },
+            };
+            if !legal.contains(&cand) {
+                calls.push(Call::Move(cand));
+            }
+            continue;
+        }
+        if r < 10 {
+            calls.push(Call::Evaluate(rng.below(if long { 60 } else { 400 })));
+            continue;
+        }
+        if r < 12 {
+            calls.push(Call::Board);
+            continue;
+        }
+        let legal = model.pos.legal_moves();
+        if legal.is_empty() {
+            // game over: install something new
+            let p = rng.pick(corpus).clone();
+            if p.chess_root_ok().is_ok() {
+                calls.push(Call::SetBoard(p.to_fen()));
+                model.set_board(p);
+                prev_own = [None, None];
+            }
+            continue;
+        }
+        let m = workload::choose_move(rng, &model.pos, &legal, prev_own[model.pos.turn.idx()], shuffle_bias);
+        prev_own[model.pos.turn.idx()] = Some(m);
+        let next = model.pos.apply(m);
+        *model.occ.entry(next.identity()).or_insert(0) += 1;
+        model.pos = next;
+        calls.push(Call::Move(m));
+    }
+    calls
+}
+
+/// The classic shuffle from the start position: Nf3 Nf6 Ng1 Ng8 repeated `reps` times.
+fn knight_shuffle(reps: usize, set_first: bool) -> Vec<Call> {
+    let mut c = Vec::new();
+    if set_first {
+        c.push(Call::SetBoard(Position::standard().to_fen()));
+    }
+    for _ in 0..reps {
+        for m in ["g1f3", "g8f6", "f3g1", "f6g8"] {
+            c.push(Call::Move(Mv::parse_uci(m).unwrap()));
+        }
+    }
+    c
+}
+
+struct Args {
+    cmd: String,
+    tier: String,
+    seed: u64,
+    shard: u64,
+    nshards: u64,
+    out: Option<String>,
+    journal: Option<String>,
+    small: bool,
+    replay: Option<String>,
+    plugin: String,
+    scale: f64,
+    rest: Vec<String>,
+}
+
+fn run_case(c: &mut Collector, api: &ChessApiRef, calls: &[Call], label: &str, reuse: Option<(&mut ChessEngine, &mut ModelEngine)>) {
+    c.eval();
+    c.count(&format!("histories:{label}"));
+    c.add("calls", calls.len() as u64);
+    c.distinct(fnv(calls.iter().map(|x| x.text()).collect::<Vec<_>>().join(";").as_bytes()));
+    c.journal(&format!("history {label} [{}]", calls.iter().take(400).map(|x| x.text()).collect::<Vec<_>>().join("; ")));
+    let mut counts: Vec<String> = Vec::new();
+    let failure = {
+        let mut st = |k: &str| counts.push(k.to_string());
+        match reuse {
+            Some((e, m)) => execute(e, m, calls, &mut st),
+            None => {
+                let mut e = api.new_engine();
+                let mut m = ModelEngine::new();
+                execute(&mut e, &mut m, calls, &mut st)
+            }
+        }
+    };
+    for k in counts {
+        c.tag(&k);
+    }
+    if let Some(f) = failure {
+        // shrink on fresh engines: keep a prefix up to the failing call, then drop calls while the
+        // same kind of failure remains
+        let mut cur: Vec<Call> = calls[..=f.at.min(calls.len() - 1)].to_vec();
+        let fails = |cs: &[Call]| -> Option<Failure> {
+            let mut e = api.new_engine();
+            let mut m = ModelEngine::new();
+            let mut nop = |_: &str| {};
+            execute(&mut e, &mut m, cs, &mut nop).filter(|g| g.kind == f.kind)
+        };
+        let mut best = fails(&cur);
+        if best.is_some() && cur.len() <= 400 {
+            let mut i = 0;
+            while i < cur.len() {
+                let mut t = cur.clone();
+                t.remove(i);
+                if let Some(g) = fails(&t) {
+                    cur = t;
+                    best = Some(g);
+                } else {
+                    i += 1;
+                }
+            }
+        }
+        let g = best.unwrap_or(f);
+        let texts: Vec<String> = cur.iter().map(|x| x.text()).collect();
+        c.violation(
+            g.kind,
+            &g.sig,
+            format!("history [{}] -> {}", texts.join("; "), g.detail),
+            obj().set("calls", texts).set("label", label),
+        );
+    }
+}
+
+fn main() {
+    let mut a = Args {
+        cmd: String::new(),
+        tier: "quick".into(),
+        seed: 1,
+        shard: 0,
+        nshards: 1,
+        out: None,
+        journal: None,
+        small: false,
+        replay: None,
+        plugin: String::new(),
+        scale: 1.0,
+        rest: vec![],
+    };
+    let mut it = std::env::args().skip(1);
+    a.cmd = it.next().unwrap_or_default();
+    while let Some(x) = it.next() {
+        match x.as_str() {
+            "--tier" => a.tier = it.next().unwrap(),
+            "--seed" => a.seed = it.next().unwrap().parse().unwrap(),
+            "--shard" => a.shard = it.next().unwrap().parse().unwrap(),
+            "--nshards" => a.nshards = it.next().unwrap().parse().unwrap(),
+            "--out" => a.out = it.next(),
+            "--journal" => a.journal = it.next(),
+            "--scale" => a.scale = it.next().unwrap().parse().unwrap(),
+            "--small" => a.small = true,
+            "--replay" => a.replay = it.next(),
+            "--plugin" => a.plugin = it.next().unwrap(),
+            _ => a.rest.push(x),
+        }
+    }
+    if a.cmd == "merge-hashes" {
+        println!("{}", report::merge_hash_files(&a.rest));
+        return;
+    }
+    if a.cmd != "C15" {
+        eprintln!("unknown command {:?}", a.cmd);
+        std::process::exit(2);
+    }
+    if let Err(e) = refmodel::self_test(false) {
+        println!("INCONCLUSIVE: reference model self-test failed: {e}");
+        std::process::exit(3);
+    }
+    let api = match ChessApiRef::load_from_file(std::path::Path::new(&a.plugin)) {
+        Ok(x) => x,
+        Err(e) => {
+            println!("INCONCLUSIVE: cannot load plugin {}: {e}", a.plugin);
+            std::process::exit(3);
+        }
+    };
+    let mut c = Collector::new("C15", a.journal.as_deref());
+    if let Some(rp) = &a.replay {
+        let text = std::fs::read_to_string(rp).expect("read replay");
+        let j = J::parse(&text).expect("parse replay");
+        let calls: Vec<Call> = j
+            .get("replay")
+            .and_then(|r| r.get("calls"))
+            .and_then(|x| x.as_arr())
+            .map(|v| v.iter().filter_map(|s| s.as_str().and_then(Call::parse)).collect())
+            .unwrap_or_default();
+        run_case(&mut c, &api, &calls, "replay", None);
+        println!("replayed {} calls: {} violation(s)", calls.len(), c.violation_total);
+        for v in &c.violations {
+            println!("VIOLATION property=C15 replay={rp}\n  {}/{}: {}", v.kind, v.signature, v.detail);
+        }
+        std::process::exit(if c.violation_total > 0 { 1 } else { 0 });
+    }
+    let thorough = a.tier == "thorough";
+    let corpus: Vec<Position> = workload::corpus().into_iter().filter(|p| p.chess_root_ok().is_ok()).collect();
+    // fixed histories
+    if a.shard == 0 {
+        for (reps, set_first) in [(2usize, true), (2, false), (3, true), (3, false), (5, true), (70, true), (80, false), (300, true)] {
+            if a.small && reps > 5 {
+                continue;
+            }
+            run_case(&mut c, &api, &knight_shuffle(reps, set_first), "knight-shuffle", None);
+        }
+        // repetition that must NOT count: castling right lost in between, e.p. marker differs
+        let u = |s: &str| Call::Move(Mv::parse_uci(s).unwrap());
+        run_case(
+            &mut c,
+            &api,
+            &[
+                Call::SetBoard("r3k2r/8/8/8/8/8/8/R3K2R w KQkq - 0 1".into()),
+                u("a1b1"), u("a8b8"), u("b1a1"), u("b8a8"), u("a1b1"), u("a8b8"), u("b1a1"), u("b8a8"), u("a1b1"), u("a8b8"), u("b1a1"), u("b8a8"),
+            ],
+            "rights-change-breaks-repetition",
+            None,
+        );
+        run_case(
+            &mut c,
+            &api,
+            &[
+                Call::SetBoard("4k3/8/8/8/1p6/8/P7/4K3 w - - 0 1".into()),
+                u("a2a4"), u("e8d8"), u("e1d1"), u("d8e8"), u("d1e1"), u("e8d8"), u("e1d1"), u("d8e8"), u("d1e1"), u("e8d8"), u("e1d1"), u("d8e8"), u("d1e1"),
+            ],
+            "ep-marker-breaks-repetition",
+            None,
+        );
+    }
+    let n_hist = ((if thorough { 4000.0 } else if a.small { 6.0 } else { 500.0 }) * a.scale).max(2.0) as u64;
+    for h in 0..n_hist {
+        let mut rng = Rng::new(mix3(a.seed, a.shard, h));
+        let long = h % 25 == 24 && !a.small;
+        let calls = gen_history(&mut rng, &corpus, long);
+        run_case(&mut c, &api, &calls, if long { "random-long" } else { "random" }, None);
+    }
+    // several engines from the same library, interleaved: each owns its table
+    let n_inter = if a.small { 2 } else if thorough { 300 } else { 40 };
+    for h in 0..n_inter {
+        let mut rng = Rng::new(mix3(a.seed, a.shard, 0x1A7E0000 + h));
+        let k = rng.range(2, 4) as usize;
+        let mut engines: Vec<(ChessEngine, ModelEngine)> = (0..k).map(|_| (api.new_engine(), ModelEngine::new())).collect();
+        let hist: Vec<Vec<Call>> = (0..k).map(|_| gen_history(&mut rng, &corpus, false)).collect();
+        let mut idx = vec![0usize; k];
+        loop {
+            let alive: Vec<usize> = (0..k).filter(|i| idx[*i] < hist[*i].len()).collect();
+            if alive.is_empty() {
+                break;
+            }
+            let i = *rng.pick(&alive);
+            let chunk = (rng.range(1, 6) as usize).min(hist[i].len() - idx[i]);
+            let slice = hist[i][idx[i]..idx[i] + chunk].to_vec();
+            idx[i] += chunk;
+            let (e, m) = &mut engines[i];
+            let before = c.violation_total;
+            run_case(&mut c, &api, &slice, "interleaved-engines", Some((e, m)));
+            if c.violation_total > before {
+                break;
+            }
+        }
+    }
+    if c.samples.is_empty() {
+        let mut rng = Rng::new(mix3(a.seed, a.shard, 0x5A));
+        let calls = gen_history(&mut rng, &corpus, false);
+        c.sample(obj().set("calls", calls.iter().take(30).map(|x| x.text()).collect::<Vec<_>>()));
+    }
+    let text = c.to_json().dump();
+    match &a.out {
+        Some(p) => {
+            std::fs::write(p, &text).expect("write result");
+            c.write_hashes(&format!("{p}.hashes"));
+        }
+        None => println!("{text}"),
+    }
+}
